@@ -22,8 +22,10 @@
    The model keeps the code's behaviour as it is, including what UnbondedOracle deletes.
    This file contains definitions only. *)
 From Coq Require Import ZArith List Bool.
+From FxV Require model.M_EndBlock.      (* qualified use only: the end blocker's slashing phase, tied to the source by gen_c07 *)
 Import ListNotations.
 Open Scope Z_scope.
+Module EB := FxV.model.M_EndBlock.
 
 (* ---------- association lists (the KV store, order irrelevant) ---------- *)
 Section Assoc.
@@ -66,10 +68,28 @@ Record oracle := { o_stake : Z;      (* DelegateAmount *)
                    o_bridger : Z;
                    o_ext : Z;
                    o_slash : Z;      (* SlashTimes *)
+                   o_start : Z;      (* StartHeight *)
                    o_deleg : bool;   (* staking: delegation delegateAddr -> validator exists *)
                    o_unb : bool      (* staking: an unbonding entry exists *) }.
 
 Record att := { a_obs : bool; a_votes : list Z }.
+
+(* what the end blocker's slashing phase reads besides the oracle records: the objects oracles must confirm
+   (key, creation height, external-address ids that confirmed), the three cursors, the signed window, the height
+   of the block being built *)
+Record ebst := {
+  e_osets : list EB.obj;   e_last_oset : Z;      (* OracleSetRequest 0x15 / confirms 0x16 / LastSlashedOracleSetNonce 0x28 *)
+  e_batches : list EB.obj; e_last_batch : Z;     (* OutgoingTxBatch by block 0x21 / confirms 0x22 / LastSlashedBatchBlock 0x30 *)
+  e_bcalls : list EB.obj;  e_last_bcall : Z;     (* OutgoingBridgeCall 0x48 / confirms 0x45 / LastSlashedBridgeCallNonce 0x46 *)
+  e_next_bcall : Z;                              (* next bridge call nonce *)
+  e_slash_h : Z;                                 (* LastOracleSlashBlockHeight 0x37 *)
+  e_window : Z;                                  (* Params.SignedWindow *)
+  e_height : Z                                   (* ctx.BlockHeight() of the block being built *)
+}.
+
+Definition eb_init : ebst :=
+  {| e_osets := []; e_last_oset := 0; e_batches := []; e_last_batch := 0; e_bcalls := []; e_last_bcall := 0;
+     e_next_bcall := 1; e_slash_h := 0; e_window := 30000; e_height := 1 |}.
 
 Record st := {
   proposal : list Z;                 (* ProposalOracle.Oracles                  (0x38) *)
@@ -84,12 +104,13 @@ Record st := {
   (* ghost logs, not in the store *)
   applied : list (Z * Z);            (* (nonce, class) in the order the events took effect *)
   effects : list Z;                  (* nonces whose deferred handler ran to completion *)
-  vlog : list (Z * Z)                (* (oracle, nonce) of every accepted vote *)
+  vlog : list (Z * Z);               (* (oracle, nonce) of every accepted vote *)
+  eb : ebst                          (* end-blocker inputs (see ebst) *)
 }.
 
 Definition init : st :=
   {| proposal := []; oracles := []; by_bridger := []; by_ext := []; last_total := 0; last_obs := 0;
-     last_by := []; atts := []; pending := []; applied := []; effects := []; vlog := [] |}.
+     last_by := []; atts := []; pending := []; applied := []; effects := []; vlog := []; eb := eb_init |}.
 
 Definition power (o : oracle) : Z := Z.quot (o_stake o) power_reduction.   (* Oracle.GetPower *)
 
@@ -108,12 +129,12 @@ Fixpoint online_power (l : list (Z * oracle)) : Z :=
 Definition refresh (s : st) : st :=
   {| proposal := proposal s; oracles := oracles s; by_bridger := by_bridger s; by_ext := by_ext s;
      last_total := online_power (oracles s); last_obs := last_obs s; last_by := last_by s;
-     atts := atts s; pending := pending s; applied := applied s; effects := effects s; vlog := vlog s |}.
+     atts := atts s; pending := pending s; applied := applied s; effects := effects s; vlog := vlog s; eb := eb s |}.
 
 Definition with_oracles (s : st) (os : list (Z * oracle)) : st :=
   {| proposal := proposal s; oracles := os; by_bridger := by_bridger s; by_ext := by_ext s;
      last_total := last_total s; last_obs := last_obs s; last_by := last_by s;
-     atts := atts s; pending := pending s; applied := applied s; effects := effects s; vlog := vlog s |}.
+     atts := atts s; pending := pending s; applied := applied s; effects := effects s; vlog := vlog s; eb := eb s |}.
 
 (* GetLastEventNonceByOracle: absent entry => lastObserved-1 (0 if nothing observed yet) *)
 Definition cursor (c : cfg) (s : st) (o : Z) : Z :=
@@ -191,12 +212,12 @@ Definition vote (c : cfg) (s : st) (bridger nonce cls : Z) (park : bool) (member
               atts := prune nonce atts2;
               pending := if park then aset Z.eqb nonce cls (pending s) else pending s;
               applied := applied s ++ [(nonce, cls)]; effects := effects s;
-              vlog := vlog s ++ [(o, nonce)] |}, Ok)
+              vlog := vlog s ++ [(o, nonce)]; eb := eb s |}, Ok)
         else
           ({| proposal := proposal s; oracles := oracles s; by_bridger := by_bridger s; by_ext := by_ext s;
               last_total := last_total s; last_obs := last_obs s; last_by := lb;
               atts := atts1; pending := pending s; applied := applied s; effects := effects s;
-              vlog := vlog s ++ [(o, nonce)] |}, Ok)
+              vlog := vlog s ++ [(o, nonce)]; eb := eb s |}, Ok)
     end
   end.
 
@@ -209,7 +230,7 @@ Definition exec (s : st) (nonce : Z) (handler_ok : bool) : st * res :=
         ({| proposal := proposal s; oracles := oracles s; by_bridger := by_bridger s; by_ext := by_ext s;
             last_total := last_total s; last_obs := last_obs s; last_by := last_by s; atts := atts s;
             pending := adel Z.eqb nonce (pending s); applied := applied s;
-            effects := effects s ++ [nonce]; vlog := vlog s |}, Ok)
+            effects := effects s ++ [nonce]; vlog := vlog s; eb := eb s |}, Ok)
       else (s, Err E_Handler)
   end.
 
@@ -222,7 +243,7 @@ Definition exec_begin (s : st) (nonce : Z) : option st :=
       Some {| proposal := proposal s; oracles := oracles s; by_bridger := by_bridger s; by_ext := by_ext s;
               last_total := last_total s; last_obs := last_obs s; last_by := last_by s; atts := atts s;
               pending := adel Z.eqb nonce (pending s); applied := applied s;
-              effects := effects s; vlog := vlog s |}
+              effects := effects s; vlog := vlog s; eb := eb s |}
   end.
 
 (* ---------- BondedOracle ---------- *)
@@ -235,12 +256,12 @@ Definition bond (c : cfg) (s : st) (o bridger ext stake : Z) : st * res :=
   else if c_threshold c * c_multiple c <? stake then (s, Err E_AboveMax)
   else
     let rec := {| o_stake := stake; o_online := true; o_bridger := bridger; o_ext := ext; o_slash := 0;
-                  o_deleg := true; o_unb := false |} in
+                  o_start := e_height (eb s); o_deleg := true; o_unb := false |} in
     (refresh
       {| proposal := proposal s; oracles := aset Z.eqb o rec (oracles s);
          by_bridger := aset Z.eqb bridger o (by_bridger s); by_ext := aset Z.eqb ext o (by_ext s);
          last_total := last_total s; last_obs := last_obs s; last_by := last_by s; atts := atts s;
-         pending := pending s; applied := applied s; effects := effects s; vlog := vlog s |}, Ok)
+         pending := pending s; applied := applied s; effects := effects s; vlog := vlog s; eb := eb s |}, Ok)
   end end end.
 
 (* ---------- AddDelegate ---------- *)
@@ -256,7 +277,8 @@ Definition add_delegate (c : cfg) (s : st) (o amount : Z) : st * res :=
       else if c_threshold c * c_multiple c <? stake' then (s, Err E_AboveMax)
       else
         let rec' := {| o_stake := stake'; o_online := true; o_bridger := o_bridger rec; o_ext := o_ext rec;
-                       o_slash := 0; o_deleg := if 0 <? d then true else o_deleg rec; o_unb := o_unb rec |} in
+                       o_slash := 0; o_start := if o_online rec then o_start rec else e_height (eb s);
+                       o_deleg := if 0 <? d then true else o_deleg rec; o_unb := o_unb rec |} in
         (refresh (with_oracles s (aset Z.eqb o rec' (oracles s))), Ok)
   end.
 
@@ -267,8 +289,8 @@ Definition slash_one (os : list (Z * oracle)) (o : Z) : option (list (Z * oracle
   | Some rec =>
       if negb (o_online rec) then Some os
       else Some (aset Z.eqb o {| o_stake := o_stake rec; o_online := false; o_bridger := o_bridger rec;
-                                 o_ext := o_ext rec; o_slash := o_slash rec + 1; o_deleg := o_deleg rec;
-                                 o_unb := o_unb rec |} os)
+                                 o_ext := o_ext rec; o_slash := o_slash rec + 1; o_start := o_start rec;
+                                 o_deleg := o_deleg rec; o_unb := o_unb rec |} os)
   end.
 
 Fixpoint slash_all (os : list (Z * oracle)) (l : list Z) : option (list (Z * oracle)) :=
@@ -298,7 +320,7 @@ Fixpoint delete_power (s : st) (new : list Z) (l : list (Z * oracle)) : Z :=
 
 Definition unbond_from_proposal (o : oracle) : oracle :=
   {| o_stake := o_stake o; o_online := false; o_bridger := o_bridger o; o_ext := o_ext o;
-     o_slash := o_slash o; o_deleg := false; o_unb := true |}.
+     o_slash := o_slash o; o_start := o_start o; o_deleg := false; o_unb := true |}.
 
 Definition gov_set (s : st) (new : list Z) : st * res :=
   if max_oracles <? Z.of_nat (length new) then (s, Err E_Invalid)
@@ -313,7 +335,7 @@ Definition gov_set (s : st) (new : list Z) : st * res :=
       let os := map (fun p => if removed_by s new p then (fst p, unbond_from_proposal (snd p)) else p) (oracles s) in
       ({| proposal := new; oracles := os; by_bridger := by_bridger s; by_ext := by_ext s;
           last_total := last_total s; last_obs := last_obs s; last_by := last_by s; atts := atts s;
-          pending := pending s; applied := applied s; effects := effects s; vlog := vlog s |}, Ok).
+          pending := pending s; applied := applied s; effects := effects s; vlog := vlog s; eb := eb s |}, Ok).
 
 (* ---------- UnbondedOracle ----------
    (the unbonding of the removed oracle's stake must have completed: refused while an unbonding entry exists;
@@ -330,13 +352,13 @@ Definition unbond (c : cfg) (s : st) (o : Z) : st * res :=
           last_total := last_total s; last_obs := last_obs s;
           last_by := if c_unbond_del c then adel Z.eqb o (last_by s) else last_by s;  (* DelLastEventNonceByOracle *)
           atts := atts s; pending := pending s; applied := applied s; effects := effects s;
-          vlog := vlog s |}, Ok)
+          vlog := vlog s; eb := eb s |}, Ok)
   end.
 
 (* ---------- time passes beyond the unbonding period: the staking end blocker completes every unbonding ---------- *)
 Definition matured (o : oracle) : oracle :=
   {| o_stake := o_stake o; o_online := o_online o; o_bridger := o_bridger o; o_ext := o_ext o;
-     o_slash := o_slash o; o_deleg := o_deleg o; o_unb := false |}.
+     o_slash := o_slash o; o_start := o_start o; o_deleg := o_deleg o; o_unb := false |}.
 Definition mature (s : st) : st :=
   with_oracles s (map (fun p : Z * oracle => (fst p, matured (snd p))) (oracles s)).
 
@@ -347,12 +369,136 @@ Definition edit_bridger (s : st) (o b : Z) : st * res :=
     else if o_bridger rec =? b then (s, Err E_Invalid)
     else match aget Z.eqb b (by_bridger s) with Some _ => (s, Err E_Invalid) | None =>
       let rec' := {| o_stake := o_stake rec; o_online := o_online rec; o_bridger := b; o_ext := o_ext rec;
-                     o_slash := o_slash rec; o_deleg := o_deleg rec; o_unb := o_unb rec |} in
+                     o_slash := o_slash rec; o_start := o_start rec; o_deleg := o_deleg rec; o_unb := o_unb rec |} in
       ({| proposal := proposal s; oracles := aset Z.eqb o rec' (oracles s);
           by_bridger := aset Z.eqb b o (adel Z.eqb (o_bridger rec) (by_bridger s)); by_ext := by_ext s;
           last_total := last_total s; last_obs := last_obs s; last_by := last_by s; atts := atts s;
-          pending := pending s; applied := applied s; effects := effects s; vlog := vlog s |}, Ok)
+          pending := pending s; applied := applied s; effects := effects s; vlog := vlog s; eb := eb s |}, Ok)
     end
+  end.
+
+(* ---------- the end blocker (abci.go EndBlocker): slashing phase from M_EndBlock, then createOracleSetRequest ----------
+   EB.slashing is the transcription of keeper.slashing with its three loops (oracle sets, batches, bridge calls),
+   the unslashed-object selection, the signed window and the snapshot of online oracles; here the oracle records and
+   the confirm sets of this model are handed to it and its result is written back. *)
+Definition with_eb (s : st) (e : ebst) : st :=
+  {| proposal := proposal s; oracles := oracles s; by_bridger := by_bridger s; by_ext := by_ext s;
+     last_total := last_total s; last_obs := last_obs s; last_by := last_by s; atts := atts s;
+     pending := pending s; applied := applied s; effects := effects s; vlog := vlog s; eb := e |}.
+
+Definition set_osets (e : ebst) (l : list EB.obj) : ebst :=
+  {| e_osets := l; e_last_oset := e_last_oset e; e_batches := e_batches e; e_last_batch := e_last_batch e;
+     e_bcalls := e_bcalls e; e_last_bcall := e_last_bcall e; e_next_bcall := e_next_bcall e;
+     e_slash_h := e_slash_h e; e_window := e_window e; e_height := e_height e |}.
+Definition set_batches (e : ebst) (l : list EB.obj) : ebst :=
+  {| e_osets := e_osets e; e_last_oset := e_last_oset e; e_batches := l; e_last_batch := e_last_batch e;
+     e_bcalls := e_bcalls e; e_last_bcall := e_last_bcall e; e_next_bcall := e_next_bcall e;
+     e_slash_h := e_slash_h e; e_window := e_window e; e_height := e_height e |}.
+Definition set_bcalls (e : ebst) (l : list EB.obj) (next : Z) : ebst :=
+  {| e_osets := e_osets e; e_last_oset := e_last_oset e; e_batches := e_batches e; e_last_batch := e_last_batch e;
+     e_bcalls := l; e_last_bcall := e_last_bcall e; e_next_bcall := next;
+     e_slash_h := e_slash_h e; e_window := e_window e; e_height := e_height e |}.
+Definition set_window (e : ebst) (w : Z) : ebst :=
+  {| e_osets := e_osets e; e_last_oset := e_last_oset e; e_batches := e_batches e; e_last_batch := e_last_batch e;
+     e_bcalls := e_bcalls e; e_last_bcall := e_last_bcall e; e_next_bcall := e_next_bcall e;
+     e_slash_h := e_slash_h e; e_window := w; e_height := e_height e |}.
+
+Definition mk_obj (key height : Z) (confirms : list Z) : EB.obj :=
+  {| EB.ob_key := key; EB.ob_height := height; EB.ob_confirms := confirms |}.
+
+(* a confirmation (OracleSetConfirm / ConfirmBatch / BridgeCallConfirm handlers): the object must exist, the external
+   address must belong to a registered oracle, no second confirmation *)
+Fixpoint add_confirm (key ext : Z) (l : list EB.obj) : option (list EB.obj) :=
+  match l with
+  | [] => None
+  | x :: r =>
+      if EB.ob_key x =? key then
+        if zmem ext (EB.ob_confirms x) then None
+        else Some (mk_obj (EB.ob_key x) (EB.ob_height x) (EB.ob_confirms x ++ [ext]) :: r)
+      else match add_confirm key ext r with Some r' => Some (x :: r') | None => None end
+  end.
+
+Definition confirm (s : st) (kind key ext : Z) : st * res :=
+  match aget Z.eqb ext (by_ext s) with
+  | None => (s, Err E_NoOracle)
+  | Some _ =>
+      let e := eb s in
+      if kind =? 0 then
+        match add_confirm key ext (e_osets e) with
+        | None => (s, Err E_Invalid) | Some l => (with_eb s (set_osets e l), Ok) end
+      else if kind =? 1 then
+        match add_confirm key ext (e_batches e) with
+        | None => (s, Err E_Invalid) | Some l => (with_eb s (set_batches e l), Ok) end
+      else
+        match add_confirm key ext (e_bcalls e) with
+        | None => (s, Err E_Invalid) | Some l => (with_eb s (set_bcalls e l (e_next_bcall e)), Ok) end
+  end.
+
+(* an outgoing batch created in this block (at most one per block), an outgoing bridge call *)
+Definition add_batch (s : st) : st * res :=
+  let e := eb s in
+  if existsb (fun x => EB.ob_key x =? e_height e) (e_batches e) then (s, Err E_Invalid)
+  else (with_eb s (set_batches e (e_batches e ++ [mk_obj (e_height e) (e_height e) []])), Ok).
+(* BuildOutgoingBridgeCall refuses while no event has been observed yet ("bridge call timeout height": the timeout is
+   derived from the last observed external block height, which SetLastObservedBlockHeight writes in TryAttestation) *)
+Definition add_bcall (s : st) : st * res :=
+  let e := eb s in
+  if last_obs s <? 1 then (s, Err E_Invalid) else
+  (with_eb s (set_bcalls e (e_bcalls e ++ [mk_obj (e_next_bcall e) (e_height e) []]) (e_next_bcall e + 1)), Ok).
+
+(* this model's records and confirm sets in the shape M_EndBlock works on *)
+Definition to_eb (p : Z * oracle) : EB.oracle :=
+  {| EB.o_id := fst p; EB.o_online := o_online (snd p); EB.o_start := o_start (snd p);
+     EB.o_slash_times := o_slash (snd p); EB.o_power := power (snd p) |}.
+(* confirmations are kept by external address; the loops compare with oracles[i].ExternalAddress *)
+Definition conv_obj (os : list (Z * oracle)) (x : EB.obj) : EB.obj :=
+  mk_obj (EB.ob_key x) (EB.ob_height x)
+         (map fst (filter (fun p : Z * oracle => zmem (o_ext (snd p)) (EB.ob_confirms x)) os)).
+Definition xstate_of (s : st) : EB.xstate :=
+  let e := eb s in
+  {| EB.oracles := map to_eb (oracles s);
+     EB.osets := map (conv_obj (oracles s)) (e_osets e); EB.last_slashed_oset := e_last_oset e;
+     EB.batches := map (conv_obj (oracles s)) (e_batches e); EB.last_slashed_batch_block := e_last_batch e;
+     EB.bcalls := map (conv_obj (oracles s)) (e_bcalls e); EB.last_slashed_bcall := e_last_bcall e;
+     EB.last_slash_height := e_slash_h e; EB.window := e_window e |}.
+(* what the three loops hand to SlashOracle: the oracle's account address (read from the source by gen_c07 and
+   compared with this in proofs/P_AttestGen.v) *)
+Definition slash_args0 : EB.slash_args :=
+  {| EB.sa_oracle_set := EB.ArgOracleAddress; EB.sa_batch := EB.ArgOracleAddress; EB.sa_bridge_call := EB.ArgOracleAddress |}.
+
+Fixpoint eb_find (id : Z) (l : list EB.oracle) : option EB.oracle :=
+  match l with
+  | [] => None
+  | o :: r => if EB.o_id o =? id then Some o else eb_find id r
+  end.
+Definition slashed_rec (o : oracle) (r : EB.oracle) : oracle :=
+  {| o_stake := o_stake o; o_online := EB.o_online r; o_bridger := o_bridger o; o_ext := o_ext o;
+     o_slash := EB.o_slash_times r; o_start := o_start o; o_deleg := o_deleg o; o_unb := o_unb o |}.
+Definition apply_slash (res : list EB.oracle) (os : list (Z * oracle)) : list (Z * oracle) :=
+  map (fun p : Z * oracle =>
+         (fst p, match eb_find (fst p) res with Some r => slashed_rec (snd p) r | None => snd p end)) os.
+
+Definition latest_oset (l : list EB.obj) : Z := fold_left (fun m x => Z.max m (EB.ob_key x)) l 0.
+
+(* newset: createOracleSetRequest stored a new oracle set (no set yet / a slash in this block / power change above
+   the configured percentage, and at least one member) — read off the implementation; it refreshes the total *)
+Definition end_block (s : st) (newset : bool) : st * res :=
+  let e := eb s in
+  let h := e_height e in
+  match EB.slashing slash_args0 (xstate_of s) h with
+  | EB.Panic => (s, Panic)
+  | EB.Ok r =>
+      let os1 := if EB.r_any r then apply_slash (EB.r_oracles r) (oracles s) else oracles s in
+      let total1 := if EB.r_any r then online_power os1 else last_total s in     (* slashing: SetLastTotalPower if any *)
+      let osets1 := if newset then e_osets e ++ [mk_obj (latest_oset (e_osets e) + 1) h []] else e_osets e in
+      let total2 := if newset then online_power os1 else total1 in               (* AddOracleSetRequest: SetLastTotalPower *)
+      ({| proposal := proposal s; oracles := os1; by_bridger := by_bridger s; by_ext := by_ext s;
+          last_total := total2; last_obs := last_obs s; last_by := last_by s; atts := atts s;
+          pending := pending s; applied := applied s; effects := effects s; vlog := vlog s;
+          eb := {| e_osets := osets1; e_last_oset := EB.r_oset_cursor r;
+                   e_batches := e_batches e; e_last_batch := EB.r_batch_cursor r;
+                   e_bcalls := e_bcalls e; e_last_bcall := EB.r_bcall_cursor r; e_next_bcall := e_next_bcall e;
+                   e_slash_h := EB.r_last_slash_height r; e_window := e_window e; e_height := h + 1 |} |}, Ok)
   end.
 
 (* ---------- operations ---------- *)
@@ -366,7 +512,12 @@ Inductive op :=
 | GovSet (os : list Z)
 | Unbond (o : Z)
 | EditBridger (o b : Z)
-| Mature.
+| Mature
+| Confirm (kind key ext : Z)               (* 0 oracle set, 1 batch, 2 bridge call *)
+| AddBatch
+| AddBCall
+| SetWindow (w : Z)                        (* UpdateParams: SignedWindow *)
+| EndBlock (newset : bool).                (* the real end blocker of the block being built *)
 
 Definition step (c : cfg) (s : st) (x : op) : st * res :=
   match x with
@@ -380,6 +531,11 @@ Definition step (c : cfg) (s : st) (x : op) : st * res :=
   | Unbond o => unbond c s o
   | EditBridger o b => edit_bridger s o b
   | Mature => (mature s, Ok)
+  | Confirm k key ext => confirm s k key ext
+  | AddBatch => add_batch s
+  | AddBCall => add_bcall s
+  | SetWindow w => (with_eb s (set_window (eb s) w), Ok)
+  | EndBlock newset => end_block s newset
   end.
 
 Definition run (c : cfg) (s : st) (h : list op) : st := fold_left (fun s x => fst (step c s x)) h s.
